@@ -203,6 +203,19 @@ func c03R2(c *Ctx) {
 		if len(appends) == 0 {
 			c.bad(spec.fn+"/append", c.pos(f.Pos()), "nothing is appended to the accumulator")
 		}
+		if spec.delim != '!' && len(appends) > 0 {
+			// and every fetched chunk is appended: no further fetch and no successful return without it
+			nbI := nb[0].(ssa.Instruction)
+			hit, path := reachAvoid(nbI, func(x ssa.Instruction) bool { return x == nbI || isNilErrReturn(x) }, func(x ssa.Instruction) bool {
+				for _, a := range appends {
+					if x == a {
+						return true
+					}
+				}
+				return false
+			})
+			c.check(hit == nil, spec.fn+"/every-chunk-appended", c.ipos(nbI), "each fetched chunk is appended before the next fetch or the successful return", "a fetched chunk can be skipped (next fetch or return without appending it): the result depends on how the stream was split", c.pathStr(path)...)
+		}
 		if spec.delim != '!' {
 			for _, a := range appends {
 				hit, _ := reachAvoid(a, func(x ssa.Instruction) bool {
